@@ -13,9 +13,10 @@ LOGICS = ["QF_UF", "QF_LRA", "QF_LIA", "QF_BOOL", "QF_UFLRA", "QF_IDL"]
 def make_case(idx, seed):
     rng = random.Random(f"c19-{seed}-{idx}")
     logic = LOGICS[idx % len(LOGICS)]
-    cores = idx % 2 == 1
+    itp = idx % 5 == 4 and logic in ("QF_UF", "QF_LRA", "QF_LIA", "QF_BOOL")
+    cores = idx % 2 == 1 or itp          # named assertions in both modes; `itp` asks for interpolants instead of cores
     p = gen.Problem(logic, rng)
-    opts = [":print-success true", ":produce-unsat-cores true" if cores else ":produce-models true"]
+    opts = [":print-success true", ":produce-interpolants true" if itp else (":produce-unsat-cores true" if cores else ":produce-models true")]
     head = [f"(set-option {o})" for o in opts] + [p.set_logic()] + p.decls
     body = []                      # (line, abstract op, is_inserted)
     names_lv, nm, aid, depth = [[]], 0, 0, 0
@@ -29,10 +30,14 @@ def make_case(idx, seed):
     def legal_assert():
         nonlocal nm, aid
         t = gen.smt(p.fla(rng.randint(0, 2)))
+        if itp and earlier and rng.random() < 0.35:
+            t = f"(not {rng.choice(earlier)})"          # refutations are what interpolation needs
+        elif itp:
+            earlier.append(t)
         ns = []
         if cores and rng.random() < 0.7:
             if rng.random() < 0.25:
-                nm += 1; inner = f"K{nm}"; names_used.append(inner); ns.append(nm)
+                nm += 1; inner = f"K{nm}"; names_used.append(inner); ns.append(nm); inner_names.add(inner)
                 t = f"(or (! {gen.smt(rng.choice(p.bools))} :named {inner}) {t})"
             if leaked and rng.random() < 0.6:
                 use = leaked.pop()          # a name that only a rejected command has mentioned so far: free in both scripts
@@ -46,10 +51,14 @@ def make_case(idx, seed):
         return line, f"A {aid} 1 " + " ".join(map(str, ns))
 
     leaked = []
+    inner_names = set()
+    earlier = []
 
     def rejected():
         nonlocal nm, aid
         k = rng.randint(0, 7)
+        if itp and num and rng.random() < 0.5:
+            k = 0                                        # refused by the solver, after the front end has read it
         b = gen.smt(rng.choice(p.bools))
         aid += 1
         if k == 0 and num:
@@ -73,6 +82,18 @@ def make_case(idx, seed):
             return f"(assert (< {gen.smt(num)} true))", f"A {aid} 0"                          # ill-sorted
         return f"(assert (= {b} nosuchsymbol2))", f"A {aid} 0"
 
+    def query():
+        if not itp:
+            return "(get-unsat-core)" if cores else "(get-model)"
+        cur = [n for n in names_used.all() if n not in inner_names]
+        if len(cur) < 2:
+            return "(get-info :name)"
+        cur = cur[:]
+        rng.shuffle(cur)
+        k = rng.randint(1, len(cur) - 1)
+        g = lambda ns: ns[0] if len(ns) == 1 else "(and " + " ".join(ns) + ")"
+        return f"(get-interpolants {g(cur[:k])} {g(cur[k:])})"
+
     for _ in range(rng.randint(8, 18)):
         c = rng.random()
         if c < 0.12 and depth < 3:
@@ -85,10 +106,10 @@ def make_case(idx, seed):
             l, a = rejected(); body.append((l, a, True))
         else:
             body.append(("(check-sat)", "C", False))
-            body.append(("(get-unsat-core)" if cores else "(get-model)", "Q", False))
+            body.append((query(), "Q", False))
     body.append(("(check-sat)", "C", False))
-    body.append(("(get-unsat-core)" if cores else "(get-model)", "Q", False))
-    return {"idx": idx, "logic": logic, "cores": cores, "head": head, "body": body, "decls": p.decls, "logic_line": p.set_logic()}
+    body.append((query(), "Q", False))
+    return {"idx": idx, "logic": logic, "cores": cores and not itp, "itp": itp, "head": head, "body": body, "decls": p.decls, "logic_line": p.set_logic()}
 
 
 def fold(outs):
@@ -197,6 +218,40 @@ def run_case(args):
                         res["problems"].append({"what": f"after rejected commands the unsat core {names} is satisfiable with the unnamed "
                                                         f"assertions ({v})", "kind": "core"})
                         break
+    # (2b) interpolants printed by S' must be Craig interpolants for the assertions and names of S (certified re-decision)
+    if case.get("itp") and not res["problems"]:
+        stack, last = [[]], None
+        lines = [l for l, a, ins in body if not ins]
+        for l, out in zip(lines, [o for (l2, o) in kept]):
+            if l.startswith("(push"):
+                stack.append([])
+            elif l.startswith("(pop") and len(stack) > 1:
+                stack.pop()
+            elif l.startswith("(assert (! ") and not modelcheck.is_error(out):
+                bodyt, name = l[len("(assert (! "):-2].rsplit(" :named ", 1)
+                stack[-1].append((re.sub(r"\(! (\S+) :named \S+\)", r"\1", bodyt), name))
+            elif l.startswith("(assert ") and not modelcheck.is_error(out):
+                stack[-1].append((l[len("(assert "):-1], None))
+            elif l == "(check-sat)":
+                last = smtlib.sym(out) if not isinstance(out, list) else None
+            elif l.startswith("(get-interpolants") and last == "unsat":
+                if modelcheck.is_error(out) or not isinstance(out, list) or len(out) != 1:
+                    res["problems"].append({"what": f"after rejected commands `{l}` is answered {smtlib.unparse(out)[:120]}", "kind": "itp"})
+                    break
+                active = [x for fr in stack for x in fr]
+                groups = smtlib.parse_sexps(l)[0][1:]
+                A = [smtlib.sym(x) for x in (groups[0][1:] if isinstance(groups[0], list) else [groups[0]])]
+                I = smtlib.unparse(out[0])
+                Atx = [t for t, n in active if n in A]
+                Btx = [t for t, n in active if n not in A]
+                v1 = certify.verdict(case["decls"], Atx + [f"(not {I})"], case["logic_line"], binary)
+                v2 = certify.verdict(case["decls"], [I] + Btx, case["logic_line"], binary) if not v1.startswith("sat") else ""
+                res["itps"] = res.get("itps", 0) + 1
+                if v1.startswith("sat") or v2.startswith("sat"):
+                    res["problems"].append({"what": f"after rejected commands the interpolant {I[:120]} of `{l}` is not an interpolant for the assertions of the "
+                                                    f"script without them: " + (f"A does not imply it ({v1})" if v1.startswith("sat") else f"it is satisfiable with B ({v2})"),
+                                            "kind": "itp"})
+                    break
     # (3) the active assertions at each check of S' (from opensmt's own trace) are those of the front-end machine
     if tp.exists() and not res["problems"]:
         try:
@@ -238,6 +293,7 @@ def run(tier):
     with mp.Pool(min(common.JOBS, 14)) as pool:
         results = pool.map(run_case, [(c, binary) for c in cases], chunksize=4)
     inserted = rejected = compared = form = 0
+    itps_checked = sum(r.get("itps", 0) for r in results)
     for r in results:
         inserted += r["inserted"]; rejected += r["rejected"]; compared += r["compared"]; form += r["differs_in_form"]
         chk.case(key=(r["idx"], r["rejected"], r["compared"]), nontrivial=r["rejected"] > 0,
@@ -254,5 +310,5 @@ def run(tier):
     return chk.finish(rule="one case = a legal incremental script and the same script with rejected commands inserted (non-Bool / "
                            "ill-sorted / unresolvable assertions, duplicate names, inner names in rejected assertions, pops beyond the stack, "
                            "bad queries); non-trivial = at least one inserted command was rejected",
-                      extra={"inserted_commands": inserted, "rejected_by_opensmt": rejected, "responses_compared": compared,
+                      extra={"interpolants_checked_after_rejections": itps_checked, "inserted_commands": inserted, "rejected_by_opensmt": rejected, "responses_compared": compared,
                              "responses_differing_in_form": form})
